@@ -6,7 +6,7 @@ from props._hist import History, Fail, result_fail, sig_from_rec, std_replay
 PROP = "C03"
 LEVEL = "other"
 SELFTEST_PARTS = ("num",)
-WALL_BUDGET = {"quick": 900, "thorough": 5400}
+WALL_BUDGET = {"quick": 1200, "thorough": 9000}
 OPS = ["create_a", "create_b", "write_a", "write_b", "delete_a", "delete_b", "rename_a_b", "rename_b_a", "mkdir_d", "rmdir_d", "move_a_d", "rendir_d_e",
        "mkdir_d_s", "create_d_a", "delete_d_a", "write_d_a"]
 
@@ -34,6 +34,7 @@ def _factory(params, env=None):
             return {"ok": False, "info": {"why": "base tree did not become quiet"}, "sigdata": {"symptom": "base-not-quiet"}}
         side = params["side"]
         h = History(lab, e, [OriginUntouched(side)])
+        h.mode = params.get("slotmode")
         try:
             first = params.get("first")
             for k in range(params["nops"]):
@@ -86,9 +87,15 @@ def jobs(tier):
     if q:
         combos = [(f, b, s, 2, 1) for f in ("oid", "path") for b in (1, 3) for s in (0, 1)]
     else:
-        combos = [(f, b, s, 2, 2) for f in ("oid", "path", "mixed") for b in (1, 3) for s in (0, 1)] + \
-                 [(f, b, s, 2, 1) for f in ("oid-ci", "oid-filt") for b in (0, 1, 3) for s in (0, 1)] + \
-                 [("oid", 3, s, 3, 1) for s in (0, 1)] + [("path", 3, 0, 3, 1)]
+        combos = [(f, b, s, 2, 2) for f in ("oid", "path") for b in (1, 3) for s in (0, 1)] + \
+                 [(f, b, s, 2, 1) for f in ("mixed",) for b in (1, 3) for s in (0, 1)] + \
+                 [(f, b, s, 2, 1) for f in ("oid-ci", "oid-filt") for b in (0, 1, 3) for s in (0, 1)]
+        # three operations with the coarser schedule (after each operation nothing or one fair round)
+        for f in ("oid", "path"):
+            for s_ in (0, 1):
+                for op in OPS:
+                    out.append({"harness": "mirror", "params": {"flavour": f, "base": 3, "side": s_, "nops": 3, "slots": 1, "slotmode": "round", "first": op},
+                                "label": "%s/base3/side%d/3ops/1round/first=%s" % (f, s_, op)})
     if q:
         # deeper schedules (2 slots per operation) after an overwrite: the engine's own upload echo is still pending when the next user operation arrives
         for f in ("oid", "path"):
@@ -108,7 +115,7 @@ def meta(tier):
                        "directions, from three previously synchronised base trees, with solver-enumerated schedule slots, through the real engine. Oracles: the origin side's tree is "
                        "identical before and after every single engine step; at quiescence the other side equals it exactly and holds no '.conflicted' name; three further fair rounds "
                        "issue no mutating provider call.",
-        "bounds": {"operations": OPS, "length": "2 (3)", "slots": "1 (2) per operation", "bases": "file; two files + folder with child (thorough + empty)", "flavours": "oid, path (thorough + mixed, case-insensitive, filtered)"},
+        "bounds": {"operations": OPS, "length": "2 (thorough: + 3 with a coarser schedule: nothing or one fair round after each operation)", "slots": "1 (2) per operation", "bases": "file; two files + folder with child (thorough + empty)", "flavours": "oid, path (thorough + mixed, case-insensitive, filtered)"},
         "symbolic": ["operation kinds", "schedule slots"],
         "outside": ["longer histories", "names outside the pool"],
         "stubs": ["engine lab determinisation (virtual clock, counter ids, entry hash order)"],
